@@ -232,6 +232,19 @@ Definition meas_muldiv (blind div : bool) (r : reg) (m1 m2 : meas) : res meas :=
   else if div then mg ←r aff_div (m_mag m1) (m_mag m2); Ok (Meas mg (uc_div u1 u2))
   else Ok (Meas (aff_mul (m_mag m1) (m_mag m2)) (uc_mul u1 u2)).
 
+(** the bare-number branch of [_add_sub] (other operand is not a Quantity): [zero_or_nan(other)]
+    lets an exact zero skip the unit check; otherwise the quantity must be dimensionless (it is
+    converted to [dimensionless] first) or the operation is a DimensionalityError.  An uncertain
+    number is zero only when its nominal value AND its standard deviation are
+    ([uncertainties]: [x == 0]): 0 ± s with s > 0 is not zero. *)
+Definition bare_zero (E : venv) (b : aff) : bool := qz (nom b) && qz (variance E b).
+Definition meas_addsub_bare (sub : bool) (r : reg) (E : venv) (m : meas) (b : aff) : res meas :=
+  let op := if sub then aff_sub else aff_add in
+  if bare_zero E b then Ok (Meas (op (m_mag m) b) (m_units m))
+  else d ←r dim_of r (m_units m);
+       if uc_eqb d ∅ then m' ←r meas_to r m ∅; Ok (Meas (op (m_mag m') b) ∅)
+       else Err EDim.
+
 (** ** Expressions with shared variables (what the correspondence generates) *)
 Inductive mexpr :=
 | XVar (i : atom)                       (* a measurement created once, possibly used many times *)
